@@ -25,7 +25,7 @@ import (
 )
 
 type c02Case struct {
-	Gen      string            `json:"gen"` // which generator produced it
+	Gen      string            `json:"gen"`  // which generator produced it
 	Mode     string            `json:"mode"` // "parse" | "get"
 	Delims   jetrun.Delims     `json:"delims"`
 	Src      string            `json:"src"`
